@@ -61,9 +61,21 @@ def _minnorm_witness(G, m, name="b"):
     return b, qb
 
 
+def _free_gram_with_s2(m):
+    """free PSD Gramian (m = 2) + its largest eigenvalue s^2 characterised by the characteristic polynomial: low-degree terms keep z3 decisive
+    even for variants of the code whose arithmetic is not scale-free"""
+    assert m == 2
+    G = free_gram(m)
+    s2 = named("s2")
+    tr, det = G[0][0] + G[1][1], G[0][0] * G[1][1] - G[0][1] * G[0][1]
+    assume((s2 * s2 - tr * s2 + det).eqz(0))
+    assume(2 * s2 >= tr)
+    return G, s2
+
+
 def case_mgda(sp, m, iters):
-    G, hint, sig = spectral_gram(m)
-    set_kernels(eigbasis=hint)
+    set_kernels()
+    G, s2 = _free_gram_with_s2(m)
     e = named("epsilon")
     assume(e >= 0)
     out = MGDA(epsilon=e, max_iters=iters)(gram_only(G))
@@ -71,7 +83,6 @@ def case_mgda(sp, m, iters):
     b, qb = _minnorm_witness(G, m)
     Ga = [rsum(G[i][j] * a[j] for j in range(m)) for i in range(m)]
     qa = rsum(a[i] * Ga[i] for i in range(m))
-    s2 = sig[0] * sig[0]
     def cex(model):
         return dict(kind="non_conflict", agg="mgda", iters=iters, **cex_values(model, G=G, epsilon=e, weights_model=a))
     # (G a)_i >= -s sqrt(qa - qb)   <=>   (G a)_i >= 0  or  (G a)_i^2 <= s^2 (qa - qb)
@@ -82,13 +93,12 @@ def case_mgda(sp, m, iters):
 
 
 def case_mgda_rate(sp, m, iters):
-    G, hint, sig = spectral_gram(m)
-    set_kernels(eigbasis=hint)
+    set_kernels()
+    G, s2 = _free_gram_with_s2(m)
     out = MGDA(epsilon=R(0), max_iters=iters)(gram_only(G))
     a = out._w._flat()
     b, qb = _minnorm_witness(G, m)
     qa = rsum(a[i] * a[j] * G[i][j] for i in range(m) for j in range(m))
-    s2 = sig[0] * sig[0]
     def cex(model):
         return dict(kind="non_conflict", agg="mgda_rate", iters=iters, **cex_values(model, G=G, weights_model=a))
     return [Ob("mgda_suboptimality_at_most_8s2_over_k_plus_2", (qa - qb <= 8 * s2 / (iters + 2)).z(), cex)]
